@@ -584,7 +584,10 @@ def analyze(scenario, log):
             nxt = [r for r in rets[q] if r[0] > ci]
             first = nxt[0] if nxt else None
             if sat:
-                if first is None or first[1] != t:
+                # a waiter that is stopped in the signal's instant, before its wake-up runs, never returns
+                ended_first = any(eq == q and et == t and eli > ci and (first is None or eli < first[0])
+                                  for (eq, et, eli) in end_events)
+                if (first is None or first[1] != t) and not ended_first:
                     bad("C13", "condition %d was signalled at t=%d while process %d was waiting with a true predicate, but it was not "
                         "resumed at that time" % (c, t, q))
             elif per_instant[(c, t)] == 1 and c not in observed:
